@@ -116,13 +116,22 @@ def run(ctx):
                     ctx.violation("row", "%s:%s" % (path, o), "row %s of %s does not dispatch on the operand pair like its siblings (unrecognised shape)" % (o, path), site=ordrows[o]["sp"])
                 else:
                     check_pair_match(ctx, path, o, pair_rows[o], "bin")
+    ctx.floor("arms", "evaluating matches on BinOp with ordering rows", n_opmatch, 2)
+    run_comparator(ctx)
+
+
+def run_comparator(ctx):
+    """the pattern matcher's comparator (shared with C01: a step filter is decided by it)"""
+    F = ctx.facts()
+    n_cmp = 0
+    for path in F.find_fns(r"^varpulis_runtime::sase::", "hir"):
+        h = F.hir(path)
         # comparator functions: match on a Value pair producing Option<Ordering>
         it = F.fn_item(path)
         if it and "core::cmp::Ordering" in it["output"] and "Option" in it["output"]:
             for m in H.matches_on(h["body"], is_value_pair_ty):
                 n_cmp += 1
                 check_pair_match(ctx, path, "cmp", m, "cmp")
-    ctx.floor("arms", "evaluating matches on BinOp with ordering rows", n_opmatch, 2)
     ctx.floor("arms", "Value-pair comparator returning Option<Ordering>", n_cmp, 1)
 
     # CompareOp -> Ordering table
